@@ -192,7 +192,7 @@ pub const NEAR_RESERVED_PARAMS: [&str; 14] = [
     "x-amz-security-token",
 ];
 
-pub const EXTRA_HEADER_NAMES: [&str; 24] = [
+pub const EXTRA_HEADER_NAMES: [&str; 52] = [
     // near-miss names of the headers the verifier consults: none of these may be taken for the real one
     "x-amz-date-extra",
     "x-amz-dat",
@@ -219,6 +219,38 @@ pub const EXTRA_HEADER_NAMES: [&str; 24] = [
     "x-amz-user-agent",
     "cache-control",
     "zzz-last",
+    // headers that describe the body or the connection and that proxies and client libraries like to special-case: to
+    // this verifier they are ordinary headers — signed if listed, passed through unchanged, folded body or not
+    "content-md5",
+    "content-encoding",
+    "transfer-encoding",
+    "expect",
+    "trailer",
+    "digest",
+    "x-amz-decoded-content-length",
+    "connection",
+    "te",
+    "x-amzn-trace-id",
+    "x-forwarded-for",
+    "via",
+    "range",
+    "accept-encoding",
+    "cookie",
+    // every character a field name may contain, and pairs that differ in one character around the letters' code points
+    // (sorting by anything but the lower-case bytes shows)
+    "x_a",
+    "xa",
+    "x-a",
+    "x.a",
+    "x0a",
+    "x~z",
+    "x+y",
+    "a!b",
+    "x^c",
+    "x|d",
+    "x`e",
+    "x%41",
+    "x'f#$&*",
 ];
 
 pub fn gen_header_value(r: &mut Rng) -> Vec<u8> {
@@ -1016,6 +1048,9 @@ pub struct Overrides {
     pub content_type_override: Option<Vec<u8>>,
     /// additional raw header lines appended last (name, value)
     pub extra_raw_headers: Vec<(Vec<u8>, Vec<u8>)>,
+    /// further values for headers the renderer manages itself (host, x-amz-date, x-amz-security-token …): appended to that
+    /// header's value list *before* signing, so the request is still validly signed (values joined by ',' in arrival order)
+    pub more_values: Vec<(String, Vec<u8>)>,
     /// additional raw query pairs (already spelled) inserted at the front / appended at the back
     pub raw_query_front: Vec<u8>,
 }
@@ -1068,6 +1103,11 @@ pub fn render(l: &Logical, cfg: &Cfg, sp: &mut Speller, ov: &Overrides) -> (Wire
     }
     for (n, vs) in &l.extra {
         hdrs.push((n.clone(), vs.clone()));
+    }
+    for (n, v) in &ov.more_values {
+        if let Some(g) = hdrs.iter_mut().find(|(hn, _)| hn == n) {
+            g.1.push(v.clone());
+        }
     }
 
     // logical query pairs
